@@ -274,6 +274,9 @@ class EscapePolicy(InlineOnly):
             if ev.ext in ("int", "float"):
                 return ["ValueError"]
             if ev.ext == "next" and len(ev.args) == 1:
+                a0 = ev.args[0]
+                if a0[0] == "call" and a0[1] == ("ext", "iter") and len(a0[2]) == 1 and _nonempty_known(s, a0[2][0]):
+                    return []  # first element of a container the path has found non-empty
                 return ["StopIteration"]
             if ev.ext in ("ipaddress.ip_address", "ipaddress.IPv4Address", "ipaddress.IPv6Address"):
                 return ["ValueError"]
@@ -318,6 +321,27 @@ class EscapePolicy(InlineOnly):
         if ev.attrname == "parse_option" and f is not None and f[0] == "attr":
             return sorted(o.registered_parse_option_escapes())
         return []
+
+
+def _nonempty_known(s, cont) -> bool:
+    """the path established  len(cont) > k (k >= 0) / len(cont) >= k (k >= 1) / cont  /  not (len(cont) == 0)"""
+    c0 = strip_sites(cont)
+    ln = lambda tm: tm[0] == "call" and tm[1] == ("ext", "len") and len(tm[2]) == 1 and strip_sites(tm[2][0]) == c0
+    for c, v, _, _ in s.conds:
+        c = strip_sites(c) if False else c
+        if v and strip_sites(c) == c0:
+            return True
+        if v and ln(c):
+            return True
+        if c[0] == "unop" and c[1] == "not" and not v and (strip_sites(c[2]) == c0 or ln(c[2])):
+            return True
+        if c[0] == "cmp" and ln(c[2]) and is_const(c[3]) and isinstance(c[3][1], int):
+            k = c[3][1]
+            if (c[1] == ">" and v and k >= 0) or (c[1] == ">=" and v and k >= 1) or (c[1] == "==" and not v and k == 0) \
+                    or (c[1] == "!=" and v and k == 0) or (c[1] == "<=" and not v and k >= 0) or (c[1] == "<" and not v and k >= 1) \
+                    or (c[1] == "==" and v and k >= 1):
+                return True
+    return False
 
 
 # ------------------------------------------------------------------------------- oracle
